@@ -400,7 +400,7 @@ def gen_v1_items(rng, depth, in_loop=False, top=True):
         elif r < 0.62:
             out.append(["s", rng.choice(["break", "continue"])] if (in_loop or rng.random() < 0.3) else ["s", "set"])
         elif r < 0.68:
-            out.append(["label", "l%d" % rng.randrange(5)])
+            out.append(["label", "l%d" % rng.randrange(5)] + (["v"] if rng.random() < 0.3 else []))
         elif r < 0.74:
             out.append(["goto", "l%d" % rng.randrange(5)])
         elif r < 0.78:
@@ -598,17 +598,29 @@ def gen_v1_rt(rng, depth):
             body = ["user express greeting"]  # (the new flow is started at once: it must wait at its first element)
             _v1_block(rng, rng.randrange(1, depth + 1), False, 0, body, [])
             steps.append(["dyn", "dyn%d" % rng.randrange(3), _v1_defined_gotos("\n".join(body) + "\n")])
-    return {"kind": "v1rt", "src": src, "steps": steps}
+    case = {"kind": "v1rt", "src": src, "steps": steps}
+    if rng.random() < 0.3:
+        # some of the generated flows are the configuration's input / output rails (LLMRails marks them as subflows); such a
+        # configuration holds no conversation here (a rail would run the generated body)
+        ids = re.findall(r"(?m)^define (?:[\w-]+ )*flow (f\d)$", src)
+        rails = {"input": [], "output": []}
+        for f in ids:
+            if rng.random() < 0.6:
+                rails[rng.choice(["input", "output"])].append(f)
+        if rails["input"] or rails["output"]:
+            case["rails"] = rails
+            case["steps"] = [["new"] if st[0] == "gen" else st for st in steps]
+    return case
 
 
 def gen_cases(rng, tier):
     cases = [{"kind": "file", "path": p} for p in shipped_files()]
     if tier == "quick":
         n_v2src, n_v2ast, n_v1src, n_v1items, depth = 900, 5000, 1500, 5000, 4
-        n_v2rt, n_v1rt = 500, 120
+        n_v2rt, n_v1rt, n_v1yaml = 500, 120, 1500
     else:
         n_v2src, n_v2ast, n_v1src, n_v1items, depth = 5000, 45000, 10000, 60000, 6
-        n_v2rt, n_v1rt = 4000, 800
+        n_v2rt, n_v1rt, n_v1yaml = 4000, 800, 15000
     for _ in range(n_v2rt):
         cases.append(gen_v2_rt(rng, tier != "quick"))
     for _ in range(n_v1rt):
@@ -628,6 +640,14 @@ def gen_cases(rng, tier):
         if rng.random() < 0.8:
             items = _fix_labels(rng, items)
         cases.append({"kind": "v1items", "items": items})
+    for _ in range(n_v1yaml):
+        items = gen_v1_items(rng, rng.randrange(1, 6))
+        if rng.random() < 0.85:
+            items = _fix_labels(rng, items)
+        c = {"kind": "v1yaml", "items": items}
+        if rng.random() < 0.1:
+            c["text"] = True  # through YAML text (`RailsConfig.from_content(yaml_content=…)`), else `RailsConfig.parse_object`
+        cases.append(c)
     return cases
 
 
@@ -643,6 +663,8 @@ def escalate(rng, focus, tier):
     for _ in range(20000):
         cases.append({"kind": "v2ast", "stmts": gen_v2_ast(rng, rng.randrange(1, 7))})
         cases.append({"kind": "v1items", "items": _fix_labels(rng, gen_v1_items(rng, rng.randrange(1, 7)))})
+    for _ in range(3000):
+        cases.append({"kind": "v1yaml", "items": _fix_labels(rng, gen_v1_items(rng, rng.randrange(1, 6)))})
     return cases
 
 
@@ -1339,9 +1361,12 @@ def run_v1rt(case):
     import asyncio
 
     obs = {"version": "1.0", "rt": True, "flows": [], "steps_done": []}
+    yaml1 = RT_YAML1
+    if case.get("rails"):  # generated flows used as input / output rails: LLMRails marks them `is_subflow` / `is_system_flow`
+        yaml1 += "rails:\n" + "".join("  %s:\n    flows:\n%s" % (k, "".join("      - %s\n" % f for f in fs)) for k, fs in sorted(case["rails"].items()) if fs)
     try:
         with _quiet():
-            config = _M["RailsConfig"].from_content(colang_content=case["src"], yaml_content=RT_YAML1)
+            config = _M["RailsConfig"].from_content(colang_content=case["src"], yaml_content=yaml1)
     except Exception as e:  # noqa
         obs["reject"] = f"parse: {type(e).__name__}: {str(e)[:120]}"
         return obs
@@ -1354,19 +1379,24 @@ def run_v1rt(case):
     dyn_items = {}
 
     def snapshot(step):
-        views = [("config", {f["id"]: f["elements"] for f in config.flows if f["id"] in own})]
+        # EVERY flow of the configuration object and EVERY flow config a live runtime holds (phase 5: also the default flows
+        # LLMRails adds from llm_flows.co / the library and the flows it marks as rail subflows); flows that are not the
+        # case's own are recorded once per case unless an instance holds something else
+        views = [("config", {f["id"]: f["elements"] for f in config.flows})]
         for j, r in enumerate(insts):
-            views.append(("rt%d" % j, {fid: fc.elements for fid, fc in r.runtime.flow_configs.items() if fid in own or fid.startswith("dyn")}))
+            views.append(("rt%d" % j, {fid: fc.elements for fid, fc in r.runtime.flow_configs.items()}))
         for vname, flows in views:
             for fid, elements in flows.items():
                 elems = [elem_of(e) for e in elements]
-                if seen.get((vname, fid)) == elems:
+                mine = fid in own or fid.startswith("dyn")
+                key = (vname, fid) if mine else (vname[:2], fid)
+                if seen.get(key) == elems:
                     continue
-                seen[(vname, fid)] = elems
+                seen[key] = elems
                 rec = {"id": fid, "elems": elems, "oracle": scan_v1(elements), "snap": [step, vname], "cls": "" if step == 0 else "@later"}
                 if vname.startswith("rt") and dyn_items.get((vname, fid)) is not None:
                     rec["items"], rec["dyn"] = dyn_items[(vname, fid)], True  # compared with the Lean model `dynamicFlow`
-                elif vname.startswith("rt") and fid in views[0][1]:
+                elif vname.startswith("rt") and fid in views[0][1] and not fid.startswith("dyn"):
                     # the flow a live runtime holds vs the Lean model `loadFlow` of the loader applied to the configuration's elements
                     rec["from"] = [elem_of(e) for e in views[0][1][fid]]
                 obs["flows"].append(rec)
@@ -1378,7 +1408,7 @@ def run_v1rt(case):
             with _quiet():
                 if k in ("new", "reload"):
                     if k == "reload":
-                        config = _M["RailsConfig"].from_content(colang_content=case["src"], yaml_content=RT_YAML1)
+                        config = _M["RailsConfig"].from_content(colang_content=case["src"], yaml_content=yaml1)
                     insts.append(_M["LLMRails"](config, llm=_M["FakeLLM"](responses=["  express greeting", '  "Hi"'] * 4)))
                 elif k == "gen":
                     insts[-1].generate(messages=[{"role": "user", "content": st[1]}])
@@ -1505,7 +1535,7 @@ def build_v1_items(items):
         elif k == "ret":
             out.append({"_type": "jump", "_next": "-1", "_absolute": True})
         elif k == "label":
-            out.append({"_type": "label", "name": it[1]})
+            out.append(dict({"_type": "label", "name": it[1]}, **({"value": it[2]} if len(it) > 2 else {})))
         elif k == "goto":
             out.append({"_type": "goto", "label": it[1]})
         elif k == "if":
@@ -1551,6 +1581,76 @@ def load_v1_flows(flow_dicts):
     rt.config.flows = []
     rt.flow_configs = {}
     return recs
+
+
+V1_SHORT = {
+    "UserIntent": lambda: {"user": "said a"}, "run_action": lambda: {"bot": "say x"}, "break": lambda: {"break": True},
+    "continue": lambda: {"continue": True}, "stop": lambda: {"stop": True}, "check": lambda: {"check": "$x"},
+    "set": lambda: {"set": "$x = 1"}, "meta": lambda: {"meta": {"note": "n"}}, "flow": lambda: {"flow": "g"},
+}
+
+
+def build_v1_yaml(items):
+    """the same item trees in the CoYML SHORTHAND of a `flows:` section of config.yml (second loading route:
+    `RailsConfig.parse_object` -> `parse_flow_elements`)"""
+    out = []
+    for it in items:
+        k = it[0]
+        if k == "s":
+            out.append(V1_SHORT[it[1]]())
+        elif k == "ell":
+            out.append({"set": "$x = ..."})
+        elif k == "ret":
+            out.append({"return": True})
+        elif k == "label":
+            out.append(dict({"label": it[1]}, **({"value": it[2]} if len(it) > 2 else {})))
+        elif k == "goto":
+            out.append({"goto": it[1]})
+        elif k == "if":
+            d = {"if": "$x", "then": build_v1_yaml(it[1])}
+            if it[2]:
+                d["else"] = build_v1_yaml(it[2])
+            out.append(d)
+        elif k == "while":
+            out.append({"while": "$x", "do": build_v1_yaml(it[1])})
+        elif k == "any":
+            out.append({"any": [V1_SHORT[c]() for c in it[1]]})
+        elif k == "br":
+            for b in it[1]:
+                out.append(build_v1_yaml(b))
+        else:
+            raise ValueError(k)
+    return out
+
+
+def compile_v1_yaml(case):
+    items = build_v1_yaml(case["items"])
+    raw = {"models": [], "flows": [{"id": "gen", "elements": items}]}
+    rec = {"id": "gen"}
+    try:
+        with _quiet():
+            if case.get("text"):
+                import yaml
+
+                config = _M["RailsConfig"].from_content(yaml_content=yaml.safe_dump(raw, sort_keys=False))
+            else:
+                config = _M["RailsConfig"].parse_object(copy.deepcopy(raw))
+    except Exception as e:  # noqa
+        rec["reject"] = f"{type(e).__name__}: {str(e)[:120]}"
+        if not (items and isinstance(items[0], dict)):
+            return [rec]  # (a flow that starts with a branch list / an empty flow: refused before parse_flow_elements is reached)
+        rec["items"] = case["items"]
+        return [rec]
+    flows = [f for f in config.flows if f.get("id") == "gen"]
+    if len(flows) != 1:
+        rec["reject"] = "the configuration holds %d flows `gen`" % len(flows)
+        return [rec]
+    elements = flows[0]["elements"]
+    if items and isinstance(items[0], dict):
+        rec["items"] = case["items"]
+    rec["elems"] = [elem_of(e) for e in elements]
+    rec["oracle"] = scan_v1(elements)
+    return [rec] + load_v1_flows([{"id": "gen", "elements": elements}])
 
 
 def compile_v1_items(flow_id, items, model_items, keep=None):
@@ -1677,6 +1777,8 @@ def run_impl(case):
         if keep:
             flows.extend(load_v1_flows(keep))
         return {"version": "1.0", "flows": flows}
+    if k == "v1yaml":
+        return {"version": "1.0", "flows": compile_v1_yaml(case)}
     raise ValueError(k)
 
 
@@ -1988,9 +2090,11 @@ def shrink(case):
             yield dict(case, stmts=s)
         if case.get("again") == "recompile2":
             yield dict(case, again="recompile")
-    elif case["kind"] == "v1items":
+    elif case["kind"] in ("v1items", "v1yaml"):
         for s in _sub_tree(case["items"]):
             yield dict(case, items=s)
+        if case.get("text"):
+            yield {k: v for k, v in case.items() if k != "text"}
     elif case["kind"] in ("v2rt", "v1rt"):
         steps = case["steps"]
         for i in range(1, len(steps)):
